@@ -41,7 +41,7 @@ fn dec_err(e: cbor_smol::Error) -> &'static str {
 macro_rules! with_cap {
     ($cap:expr, $f:ident, $($arg:expr),*) => {
         match $cap {
-            0 => None, // Vec<u8, 0>::serialize would panic by construction; never generated
+            0 => Some($f::<0>($($arg),*)),
             1 => Some($f::<1>($($arg),*)), 2 => Some($f::<2>($($arg),*)), 3 => Some($f::<3>($($arg),*)),
             4 => Some($f::<4>($($arg),*)), 5 => Some($f::<5>($($arg),*)), 6 => Some($f::<6>($($arg),*)),
             7 => Some($f::<7>($($arg),*)), 8 => Some($f::<8>($($arg),*)), 9 => Some($f::<9>($($arg),*)),
@@ -85,6 +85,15 @@ fn resp_serialize<const N: usize>(r: &ctap_types::ctap2::Response, prior: &[u8])
     buf.to_vec()
 }
 
+fn u2f_serialize<const S: usize>(r: &ctap_types::ctap1::Response, prior: &[u8]) -> String {
+    let mut buf: iso7816::Data<S> = iso7816::Data::new();
+    buf.extend_from_slice(prior).expect("harness: prior longer than capacity");
+    match r.serialize(&mut buf) {
+        Ok(()) => format!("ok {}", if buf.is_empty() { "-".to_string() } else { hex(&buf) }),
+        Err(()) => format!("err {}", if buf.is_empty() { "-".to_string() } else { hex(&buf) }),
+    }
+}
+
 fn handle(line: &str, big: &mut [u8]) -> String {
     let toks: Vec<&str> = line.trim().split(' ').collect();
     match toks.as_slice() {
@@ -122,6 +131,7 @@ fn handle(line: &str, big: &mut [u8]) -> String {
         ["resp", _cfg, variant, val, cap, prior] => {
             let v = if *val == "-" { None } else { V::parse(val) };
             let (Ok(cap), Some(prior)) = (cap.parse::<usize>(), unhex(prior)) else { return "bad-case".into() };
+            if cap == 0 { return "bad-case".into(); } // C17 assumes capacity >= 1 (capacity 0 panics by construction)
             let Some(r) = glue::build_response(variant, v.as_ref()) else { return "bad-case".into() };
             match with_cap!(cap, resp_serialize, &r, &prior) {
                 Some(b) => hex(&b),
@@ -192,6 +202,65 @@ fn handle(line: &str, big: &mut [u8]) -> String {
                 Ok(b) => format!("ok {}", hex(&b)),
                 Err(e) => format!("err {}", e as u8),
             }
+        }
+        ["apdu", mode, hx] => {
+            let Some(bytes) = unhex(hx) else { return "bad-case".into() };
+            fn show(r: Result<ctap_types::ctap1::Request, ctap_types::ctap1::Error>) -> String {
+                use ctap_types::ctap1::{ControlByte::*, Request::*};
+                match r {
+                    Ok(Register(r)) => format!("ok register {} {}", hex(r.challenge), hex(r.app_id)),
+                    Ok(Authenticate(a)) => {
+                        let cb = match a.control_byte { CheckOnly => 0, EnforceUserPresenceAndSign => 1, DontEnforceUserPresenceAndSign => 2 };
+                        format!("ok authenticate {} {} {} {}", cb, hex(a.challenge), hex(a.app_id), if a.key_handle.is_empty() { "-".to_string() } else { hex(a.key_handle) })
+                    }
+                    Ok(Version) => "ok version".into(),
+                    Err(e) => { let sw: u16 = e.into(); format!("err {}", sw) }
+                }
+            }
+            match *mode {
+                "view" => match iso7816::command::CommandView::try_from(bytes.as_slice()) {
+                    Ok(view) => show(ctap_types::ctap1::Request::try_from(view)),
+                    Err(_) => "bad-apdu".into(),
+                },
+                "cmd" => match iso7816::Command::<7609>::try_from(bytes.as_slice()) {
+                    Ok(cmd) => show(ctap_types::ctap1::Request::try_from(&cmd)),
+                    Err(_) => "bad-apdu".into(),
+                },
+                _ => "bad-case".into(),
+            }
+        }
+        ["u2fs", cap, prior, resp] => {
+            let (Ok(cap), Some(prior)) = (cap.parse::<usize>(), unhex(prior)) else { return "bad-case".into() };
+            let parts: Vec<&str> = resp.split(':').collect();
+            let b = |s: &str| unhex(s).expect("harness: bad hex");
+            let r = match parts.as_slice() {
+                ["reg", h, pk, kh, cert, sig] => ctap_types::ctap1::Response::Register(ctap_types::ctap1::register::Response {
+                    header_byte: h.parse().expect("harness: header"),
+                    public_key: ctap_types::Bytes::from_slice(&b(pk)).expect("harness: pk over capacity"),
+                    key_handle: ctap_types::Bytes::from_slice(&b(kh)).expect("harness: kh over capacity"),
+                    attestation_certificate: ctap_types::Bytes::from_slice(&b(cert)).expect("harness: cert over capacity"),
+                    signature: ctap_types::Bytes::from_slice(&b(sig)).expect("harness: sig over capacity"),
+                }),
+                ["auth", up, count, sig] => ctap_types::ctap1::Response::Authenticate(ctap_types::ctap1::authenticate::Response {
+                    user_presence: up.parse().expect("harness: up"), count: count.parse().expect("harness: count"),
+                    signature: ctap_types::Bytes::from_slice(&b(sig)).expect("harness: sig over capacity"),
+                }),
+                ["ver", v] => ctap_types::ctap1::Response::Version(b(v).try_into().expect("harness: version length")),
+                _ => return "bad-case".into(),
+            };
+            match with_cap!(cap, u2f_serialize, &r, &prior) {
+                Some(s) => s,
+                None => "bad-case".into(),
+            }
+        }
+        ["regnew", x, y] => {
+            let (Some(x), Some(y)) = (unhex(x), unhex(y)) else { return "bad-case".into() };
+            let key = cosey::EcdhEsHkdf256PublicKey {
+                x: ctap_types::Bytes::from_slice(&x).expect("harness: x over 32"),
+                y: ctap_types::Bytes::from_slice(&y).expect("harness: y over 32"),
+            };
+            let r = ctap_types::ctap1::register::Response::new(5, &key, ctap_types::Bytes::new(), ctap_types::Bytes::new(), ctap_types::Bytes::new());
+            format!("ok {}", hex(&r.public_key))
         }
         ["tbl", name] => match glue::table(name) {
             Some(t) => t.iter().map(|(n, v)| format!("{}={}", n, v)).collect::<Vec<_>>().join(","),
